@@ -24,10 +24,61 @@ CMP_SWAP = {ast.Lt: ast.LtE, ast.LtE: ast.Lt, ast.Gt: ast.GtE, ast.GtE: ast.Gt,
             ast.Eq: ast.NotEq, ast.NotEq: ast.Eq}
 
 
-def candidate_sites(fn):
-    """(kind, node path index) for every mutable site of the function body"""
+def _names(node):
+    out = set()
+    for n in ast.walk(node):
+        if isinstance(n, ast.Name):
+            out.add(n.id)
+        elif isinstance(n, ast.Attribute):
+            out.add(n.attr)
+        elif isinstance(n, ast.keyword) and n.arg:
+            out.add(n.arg)
+    return out
+
+
+def _relevant_statements(fn, focus):
+    """ids of the nodes inside a simple statement (or a compound statement's header) that mentions
+    one of the names in `focus` - a view of a function (slice / forwarding contract) states
+    something about those names only, so only mutations touching them can be expected to be seen"""
+    ok = set()
+    for st in ast.walk(fn):
+        if not isinstance(st, ast.stmt) or st is fn:
+            continue
+        if isinstance(st, (ast.For, ast.While, ast.If, ast.With, ast.Try)):
+            heads = [getattr(st, 'test', None), getattr(st, 'iter', None), getattr(st, 'target', None)]
+            heads = [h for h in heads if h is not None]
+            if any(_names(h) & focus for h in heads):
+                for h in heads:
+                    ok.update(id(n) for n in ast.walk(h))
+            continue
+        if _names(st) & focus:
+            ok.update(id(n) for n in ast.walk(st))
+    return ok
+
+
+def candidate_sites(fn, focus=None, callees=()):
+    """(kind, node path index) for every mutable site of the function body; with `focus` (a set of
+    names) only sites in statements mentioning one of them; `callees`: names of calls whose
+    keyword arguments are mutation sites (forwarding views)"""
     sites = []
+    relevant = _relevant_statements(fn, set(focus)) if focus else None
     for i, node in enumerate(ast.walk(fn)):
+        if isinstance(node, ast.Call) and callees:
+            f = node.func
+            fname = f.id if isinstance(f, ast.Name) else (f.attr if isinstance(f, ast.Attribute) else None)
+            if fname in callees or fname == 'Process':
+                for k, kw in enumerate(node.keywords):
+                    if kw.arg is not None and (not focus or kw.arg in focus):
+                        sites.append((f'callarg{k}', i))
+            continue
+        if isinstance(node, ast.Dict) and callees and focus:
+            # kwargs={...} dictionaries handed to multiprocessing.Process
+            for k, key in enumerate(node.keys):
+                if isinstance(key, ast.Constant) and key.value in focus:
+                    sites.append((f'dictarg{k}', i))
+            continue
+        if relevant is not None and id(node) not in relevant:
+            continue
         if isinstance(node, ast.Compare) and len(node.ops) == 1 and type(node.ops[0]) in CMP_SWAP:
             sites.append(('cmp', i))
         elif isinstance(node, ast.BinOp) and isinstance(node.op, (ast.Add, ast.Sub)) \
@@ -74,6 +125,24 @@ def apply_mutation(fn, kind, index):
         target.value = target.value + 1
     elif kind == 'boolop':
         target.op = ast.Or() if isinstance(target.op, ast.And) else ast.And()
+    elif kind.startswith('callarg'):
+        k = int(kind[7:])
+        kw = target.keywords[k]
+        # a forwarded setting replaced by a constant / dropped: the callee no longer sees the caller's value
+        if isinstance(kw.value, ast.Constant):
+            return None, ''
+        before = f"{kw.arg}={ast.unparse(kw.value)[:40]}"
+        kw.value = ast.Constant(value=None)
+        ast.fix_missing_locations(fn)
+        return fn, f"callarg: `{before}` -> `{kw.arg}=None`"
+    elif kind.startswith('dictarg'):
+        k = int(kind[7:])
+        if isinstance(target.values[k], ast.Constant):
+            return None, ''
+        before = f"{ast.unparse(target.keys[k])}: {ast.unparse(target.values[k])[:40]}"
+        target.values[k] = ast.Constant(value=None)
+        ast.fix_missing_locations(fn)
+        return fn, f"dictarg: `{before}` -> None"
     elif kind in ('dropstmt', 'dropraise'):
         # replace the statement by `pass`
         for parent in ast.walk(fn):
@@ -138,8 +207,17 @@ def run(contracts, seed, jobs, per_function=5, timeout=240):
             info, fn, cls = find_function(c.qualname)
         except Exception:
             continue
-        sites = candidate_sites(fn)
+        fwd = (c.ghost or {}).get('forward') or {}
+        focus = None
+        if fwd:
+            focus = set(x for v in fwd.values() for x in v) | set(fwd)
+        elif c.mode == 'slice' and c.tracked:
+            focus = set(c.tracked)
+        sites = candidate_sites(fn, focus, set(fwd))
         rng.shuffle(sites)
+        if fwd:
+            # call-argument mutations first: they are what a forwarding view is about
+            sites.sort(key=lambda kv: 0 if kv[0].startswith(('callarg', 'dictarg')) else 1)
         chosen = 0
         seen_desc = set()
         for kind, idx in sites:
